@@ -80,6 +80,11 @@ type g2lUnit struct {
 	worldObjs map[string]bool    // struct types whose (single) instance lives in the threaded world: fields of a value of such a type are fields of `world`, its methods take no receiver
 	onceCalls map[string]string  // "c.initOnce.Do" -> Boolean world field: sync.Once.Do(f) runs the method value f unless the field is set, and sets it
 	cacheCalls map[string]string // "c.record.Do" -> world field holding the memo table (association list): parCache.Do(key, func) looks the key up and otherwise runs the function and stores its result
+	viewVars  map[string]bool    // "Fn.var": a []string variable that aliases the tail of a heap Line's Token: a (line pointer, offset) pair (TokRef)
+	errConv   map[string]string  // named type of the package that implements error -> Lean function to the error value (Option String): ErrorList -> errListErr
+	optFuncs  map[string]string  // named function type that may be nil (VersionFixer) -> Lean function type; values are `Option` of it
+	valueIdents map[string]string // package-level variable -> Lean term (a function value defined in the preamble)
+	errStructs map[string]bool   // foreign struct types that are errors with an `Err` field ("module.ModuleError"): a type assertion on an error tests the constructor name; x.Err is the inner error
 	anyType   string             // Lean type standing for interface{} (the value type of the memo tables)
 	localTypes map[string]string // types declared inside function bodies -> Lean structure of the preamble ("cached" -> "Cached")
 	inlineFns map[string]bool    // plain functions compiled in place at their (statement) call sites, pointer parameters as aliases of the caller's places
@@ -332,6 +337,9 @@ func (f *g2lFn) leanType(t types.Type, at ast.Node) string {
 		return "Bytes"
 	}
 	if n0, ok := t.(*types.Named); ok {
+		if lt, ok := f.u.optFuncs[n0.Obj().Name()]; ok && n0.Obj().Pkg() == f.p.pkg {
+			return "(Option (" + lt + "))"
+		}
 		if sig0, ok := n0.Underlying().(*types.Signature); ok && n0.Obj().Pkg() == f.p.pkg {
 			// a named function type (type Hash func(…) (…)): its signature
 			return f.leanType(sig0, at)
@@ -344,6 +352,9 @@ func (f *g2lFn) leanType(t types.Type, at ast.Node) string {
 			ps = append(ps, f.leanType(sig.Params().At(i).Type(), at))
 		}
 		return "(" + strings.Join(ps, " → ") + " → " + f.leanType(sig.Results(), at) + ")"
+	}
+	if f.errStructName(t) != "" {
+		return "(Option String)"
 	}
 	if ft := f.foreignType(t); ft != "" {
 		return ft
@@ -459,6 +470,11 @@ func (f *g2lFn) structType(name string) string {
 func (f *g2lFn) zero(t types.Type, at ast.Node) string {
 	if isBytesBuffer(t) || f.isAccum(t) {
 		return "([] : Bytes)"
+	}
+	if n0, ok := t.(*types.Named); ok {
+		if _, ok := f.u.optFuncs[n0.Obj().Name()]; ok && n0.Obj().Pkg() == f.p.pkg {
+			return "(none : " + f.leanType(t, at) + ")"
+		}
 	}
 	if _, ok := t.(*types.Signature); ok {
 		// the nil function value: never called by correct code; any function stands for it
@@ -624,6 +640,31 @@ func (f *g2lFn) exprAs(b *binds, e ast.Expr, t types.Type) string {
 	if id, ok := e.(*ast.Ident); ok && id.Name == "nil" && t != nil {
 		return f.zero(t, e)
 	}
+	if t != nil && isErrorType(t) && len(f.u.errConv) > 0 {
+		if n, ok := f.typeOf(e).(*types.Named); ok && n.Obj().Pkg() == f.p.pkg {
+			if fn, ok := f.u.errConv[n.Obj().Name()]; ok {
+				return "(" + fn + " " + f.expr(b, e) + ")"
+			}
+		}
+	}
+	if t != nil && isErrorType(t) {
+		if ue, ok := e.(*ast.UnaryExpr); ok && ue.Op == token.AND {
+			if cl, ok := ue.X.(*ast.CompositeLit); ok {
+				if n, ok := f.typeOf(cl).(*types.Named); ok && g2lImplementsError(types.NewPointer(n)) {
+					if _, isHeap := f.u.heapTypes[n.Obj().Name()]; isHeap {
+						// &T{…, Err: x} of a heap type used as an error VALUE: no object is allocated, the error is "T|inner"
+						for _, el := range cl.Elts {
+							if kv, ok := el.(*ast.KeyValueExpr); ok {
+								if id, ok := kv.Key.(*ast.Ident); ok && id.Name == "Err" {
+									return fmt.Sprintf("(wrapErr %q %s)", n.Obj().Name(), f.exprAs(b, kv.Value, g2lErrorType))
+								}
+							}
+						}
+					}
+				}
+			}
+		}
+	}
 	if t != nil {
 		if r := f.toIface(b, e, t); r != "" {
 			return r
@@ -681,6 +722,11 @@ func (f *g2lFn) expr(b *binds, e ast.Expr) string {
 				return f.zero(f.want, e)
 			}
 			return "none"
+		}
+		if pv, ok := f.p.info.Uses[e].(*types.Var); ok && pv.Parent() == f.p.pkg.Scope() {
+			if t, ok := f.u.valueIdents[e.Name]; ok {
+				return t
+			}
 		}
 		if fo, ok := f.p.info.Uses[e].(*types.Func); ok && fo.Pkg() == f.p.pkg {
 			if _, isW := f.u.worldFns[fo.Name()]; isW {
@@ -826,6 +872,10 @@ func (f *g2lFn) expr(b *binds, e ast.Expr) string {
 	case *ast.BinaryExpr:
 		return f.binary(b, e)
 	case *ast.IndexExpr:
+		if v, ok := f.viewVar(e.X); ok {
+			f.needWorld(e)
+			return f.bindM(b, fmt.Sprintf("TokRef.get %s %s world", v, f.expr(b, e.Index)))
+		}
 		x := f.expr(b, e.X)
 		i := f.expr(b, e.Index)
 		if isBytesLike(f.typeOf(e.X)) {
@@ -843,6 +893,16 @@ func (f *g2lFn) expr(b *binds, e ast.Expr) string {
 		f.bad(e, "index of %s", f.typeOf(e.X))
 	case *ast.SliceExpr:
 		// x[lo:hi:max]: the capacity limit only forces a later append to copy — which is what a value does anyway
+		if v, ok := f.viewVar(e.X); ok {
+			if e.High != nil || e.Max != nil {
+				f.bad(e, "only v[k:] of a token view")
+			}
+			if e.Low == nil {
+				return v
+			}
+			f.needWorld(e)
+			return f.bindM(b, fmt.Sprintf("TokRef.drop %s %s world", v, f.expr(b, e.Low)))
+		}
 		x := f.expr(b, e.X)
 		if _, ok := f.typeOf(e.X).Underlying().(*types.Array); ok {
 			if n, ok := f.typeOf(e.X).(*types.Named); ok && e.Low == nil && e.High == nil {
@@ -870,6 +930,9 @@ func (f *g2lFn) expr(b *binds, e ast.Expr) string {
 		hi := f.expr(b, e.High)
 		return f.bindM(b, fmt.Sprintf("slice %s %s %s", x, lo, hi))
 	case *ast.SelectorExpr:
+		if es := f.errStructName(f.typeOf(e.X)); es != "" && e.Sel.Name == "Err" {
+			return fmt.Sprintf("(errInner %q %s)", es, f.expr(b, e.X))
+		}
 		if sel, ok := f.p.info.Selections[e]; ok && sel.Kind() == types.FieldVal {
 			// promoted fields of embedded structs: x.Before  ==>  x.Comments.Before
 			t := f.typeOf(e.X)
@@ -975,6 +1038,11 @@ func (f *g2lFn) expr(b *binds, e ast.Expr) string {
 			}
 			if n, ok := t.(*types.Named); ok {
 				if tup, ok := f.typeOf(e).(*types.Tuple); ok && tup.Len() == 2 {
+					if n.Obj().Pkg() != nil && f.u.errStructs[n.Obj().Pkg().Name()+"."+n.Obj().Name()] {
+						// the asserted value stays the error value; its Err field is read with errInner
+						x := f.expr(b, e.X)
+						return fmt.Sprintf("(%s, errIs %q %s)", x, n.Obj().Name(), x)
+					}
 					return fmt.Sprintf("((), errIs %q %s)", n.Obj().Name(), f.expr(b, e.X))
 				}
 			}
@@ -1181,6 +1249,14 @@ func (f *g2lFn) binary(b *binds, e *ast.BinaryExpr) string {
 	if e.Op == token.EQL || e.Op == token.NEQ {
 		for _, pair := range [][2]ast.Expr{{e.X, e.Y}, {e.Y, e.X}} {
 			if id, ok := pair[1].(*ast.Ident); ok && id.Name == "nil" {
+				if n, ok := f.typeOf(pair[0]).(*types.Named); ok {
+					if _, isOpt := f.u.optFuncs[n.Obj().Name()]; isOpt {
+						if e.Op == token.EQL {
+							return "(" + f.expr(b, pair[0]) + ").isNone"
+						}
+						return "(" + f.expr(b, pair[0]) + ").isSome"
+					}
+				}
 				if n, ok := f.typeOf(pair[0]).(*types.Named); ok && f.u.nonNilIfaces[n.Obj().Name()] {
 					if e.Op == token.EQL {
 						return "false"
@@ -1556,4 +1632,95 @@ func (f *g2lFn) storeHeap(lines *[]string, x ast.Expr, update func(cur string) s
 		return true
 	}
 	return false
+}
+
+// viewVar: e is (a dereference of) a variable configured as a VIEW of a heap Line's tokens: a TokRef (line pointer, offset)
+func (f *g2lFn) viewVar(e ast.Expr) (string, bool) {
+	if len(f.u.viewVars) == 0 {
+		return "", false
+	}
+	for {
+		switch x := e.(type) {
+		case *ast.ParenExpr:
+			e = x.X
+			continue
+		case *ast.StarExpr:
+			e = x.X
+			continue
+		}
+		break
+	}
+	id, ok := e.(*ast.Ident)
+	if !ok {
+		return "", false
+	}
+	var o types.Object = f.p.info.Uses[id]
+	if o == nil {
+		o = f.p.info.Defs[id]
+	}
+	v, ok := o.(*types.Var)
+	if !ok || !f.isViewObj(v) {
+		return "", false
+	}
+	return f.name(id), true
+}
+
+func (f *g2lFn) isViewObj(v *types.Var) bool {
+	if v == nil || len(f.u.viewVars) == 0 {
+		return false
+	}
+	// the variable belongs to the function whose source text contains its declaration
+	for key := range f.u.viewVars {
+		i := strings.LastIndex(key, ".")
+		if key[i+1:] != v.Name() {
+			continue
+		}
+		if fd := f.p.decls[key[:i]]; fd != nil && fd.Pos() <= v.Pos() && v.Pos() < fd.End() {
+			return true
+		}
+	}
+	return false
+}
+
+// viewOf: a value for a view variable / parameter: another view, or `P.Token` / `P.Token[k:]` of a heap line P
+func (f *g2lFn) viewOf(b *binds, e ast.Expr) string {
+	if se, ok := e.(*ast.SliceExpr); ok {
+		if _, isV := f.viewVar(se.X); isV {
+			return f.expr(b, e)
+		}
+	}
+	if _, isV := f.viewVar(e); isV {
+		return f.expr(b, e)
+	}
+	lo := "(0 : Int)"
+	x := e
+	if se, ok := e.(*ast.SliceExpr); ok && se.High == nil && se.Max == nil {
+		x = se.X
+		if se.Low != nil {
+			lo = f.expr(b, se.Low)
+		}
+	}
+	if sel, ok := x.(*ast.SelectorExpr); ok && sel.Sel.Name == "Token" {
+		if hf, ok := f.heapField(f.typeOf(sel.X)); ok && hf == "lines" {
+			f.needWorld(e)
+			return f.bindM(b, fmt.Sprintf("TokRef.make %s %s world", f.expr(b, sel.X), lo))
+		}
+	}
+	f.bad(e, "a view of a line's tokens must be another view, P.Token or P.Token[k:]: %s", show(e))
+	return ""
+}
+
+// errStructName: t is (a pointer to) a foreign struct type configured as an error with an Err field
+func (f *g2lFn) errStructName(t types.Type) string {
+	if t == nil || len(f.u.errStructs) == 0 {
+		return ""
+	}
+	if pt, ok := t.(*types.Pointer); ok {
+		t = pt.Elem()
+	}
+	n, ok := t.(*types.Named)
+	if !ok || n.Obj().Pkg() == nil || !f.u.errStructs[n.Obj().Pkg().Name()+"."+n.Obj().Name()] {
+		return ""
+	}
+	return n.Obj().Name()
 }
